@@ -6,7 +6,7 @@ NAMES = ["rp", "rpH", "rpL", "rp3", "cbA", "rl2", "bh1", "fbR", "fbH", "cK", "to
 
 
 def accept(m):
-    return m["tag"] in ("evsnap", "counters")
+    return m["tag"] in ("evsnap", "counters") or (m["tag"] == "evextra" and m["kind"] == "fn")
 
 
 def run(ctx):
@@ -17,5 +17,16 @@ def run(ctx):
     jobs = [dict(ctx=ctx, binary=binary, name="st%d" % k, stacks=st[k::parts], outs=seq.OUTS4 if quick else seq.OUTS3, maxcalls=3, execs=1, workers=8) for k in range(parts)]
     mism = seq.run_jobs(ctx, jobs, par=2)
     seq.report(ctx, mism, accept)
+    # overlapping hedge attempts and attempts that outlive their timeout: what the function sees when it starts and when it
+    # ends (counters, flags, last result/error) must be what the threaded model says at that event
+    import p_c07, tscen
+    from tscen import scenario, fn, start, env, to, hg, retry, fb, cR
+    scs = []
+    for ds in ((1, 3, 1), (3, 1, 1), (4, 4, 1), (2, 2, 2)):
+        for coop in (True, False):
+            fns = [[fn(d, "R0", "E1", coop) for d in ds] + [fn(1, "R1")] * 2]
+            scs += [scenario(st, fns, [start(1)]) for st in ([retry(2, dly=1), to(2)], [hg(2, 1, c=[cR("R1")])], [retry(1, dly=1), hg(1, 2, c=[cR("R1")])],
+                                                              [fb(), hg(1, 1, c=[cR("R1")])], [to(3), retry(1), hg(1, 1)])]
+    p_c07.run_family(ctx, "c17t", scs)
     return vlib.finish(ctx, rule="all stacks of depth <= D over %d descriptors; Attempts/Executions/Retries/Hedges, flags and LastResult/LastError read inside the function, every listener and the fallback, compared with the spec's snapshot at that event; "
                        "non-trivial = more than one invocation or any policy event" % len(NAMES), exhaustive=True)
